@@ -7,7 +7,7 @@ from hypothesis import strategies as st
 
 VMAX = 10000
 
-SERIES_CLASSES = ["seasonal", "walk", "iid", "constant", "linear", "step", "flat_spikes", "few_values", "extremes"]
+SERIES_CLASSES = ["seasonal", "walk", "iid", "constant", "linear", "step", "flat_spikes", "few_values", "extremes", "small"]
 GAP_CLASSES = ["none", "isolated", "runs", "leading", "trailing", "lead_trail", "all_but_k", "alternating"]
 
 
@@ -63,6 +63,8 @@ def series(draw, nmin=4, nmax=200, classes=None, vmax=VMAX, n=None):
     elif cls == "few_values":
         vals = draw(st.lists(ints(-vmax, vmax), min_size=2, max_size=3, unique=True))
         y = draw(st.lists(st.sampled_from(vals), min_size=n, max_size=n))
+    elif cls == "small":  # values around zero: exact zeros and sign changes are frequent
+        y = draw(st.lists(ints(-5, 5), min_size=n, max_size=n))
     else:  # extremes
         y = draw(st.lists(st.sampled_from([-vmax, vmax, -vmax + 1, vmax - 1, 0]), min_size=n, max_size=n))
     return {"cls": cls, "y": [int(v) for v in y]}
